@@ -117,6 +117,105 @@ class LinearMachine(Machine):
         return st
 
 
+def import_mapping_and_flush(ctx, chk, R4):
+    """Lockstep growth of the old/new key lists and completeness of the batch flushes in import_objects (C14.R4; also claimed as C16.R6)."""
+    prog, K = ctx.prog, ctx.kinds
+    fn = prog.fn(IMPORT)
+    # ---------------------------------------------------------------- R4
+    rets = [n for n in walk_local(fn.node) if isinstance(n, ast.Return) and n.value is not None]
+    chk.require(rets, 'import_objects: return not found')
+    mapping = rets[-1].value
+    zipc = None
+    if isinstance(mapping, ast.Name):
+        mname = mapping.id
+        for n in walk_local(fn.node):
+            if isinstance(n, ast.Assign) and isinstance(n.targets[0], ast.Name) and n.targets[0].id == mname:
+                mapping = n.value
+    for x in ast.walk(mapping):
+        if isinstance(x, ast.Call) and norm(x.func) == 'zip' and len(x.args) == 2 and all(isinstance(a, ast.Name) for a in x.args):
+            zipc = x
+    chk.require(zipc is not None, 'import_objects: the returned mapping is not dict(zip(old, new)) any more')
+    A, B = zipc.args[0].id, zipc.args[1].id
+
+    def growth(block, name):
+        out = []
+        for st in block:
+            if isinstance(st, ast.Expr) and isinstance(st.value, ast.Call) and isinstance(st.value.func, ast.Attribute) and st.value.func.attr == 'append' \
+                    and isinstance(st.value.func.value, ast.Name) and st.value.func.value.id == name:
+                out.append(('append', st))
+            elif isinstance(st, ast.AugAssign) and isinstance(st.target, ast.Name) and st.target.id == name and isinstance(st.op, ast.Add):
+                out.append(('extend', st))
+        return out
+
+    blocks = []
+    for n in [fn.node] + list(walk_local(fn.node)):
+        for attr in ('body', 'orelse', 'finalbody'):
+            b = getattr(n, attr, None)
+            if isinstance(b, list) and b and isinstance(b[0], ast.stmt):
+                blocks.append(b)
+    npairs = 0
+    for b in blocks:
+        ga, gb = growth(b, A), growth(b, B)
+        if not ga and not gb:
+            continue
+        if [k for k, _ in ga] != [k for k, _ in gb]:
+            st = (ga or gb)[0][1]
+            chk.bad(R4, IMPORT, norm(st)[:120], f'`{A}` and `{B}` do not grow in lockstep in this block ({[k for k, _ in ga]} vs {[k for k, _ in gb]}): the returned mapping would pair '
+                    'source keys with the wrong destination keys', where=f'{fn.module.relpath}:{st.lineno}')
+            continue
+        for (ka, sa), (kb, sb) in zip(ga, gb):
+            npairs += 1
+            if ka == 'extend':
+                # A += T1, B += T2 with (T1, D) = zip(*cache.items()) and T2 = self.add_objects_to_pack(D, ...)
+                t1 = sa.value.id if isinstance(sa.value, ast.Name) else None
+                t2 = sb.value.id if isinstance(sb.value, ast.Name) else None
+                unpack = next((x for x in b if isinstance(x, ast.Assign) and isinstance(x.targets[0], ast.Tuple) and [getattr(e, 'id', None) for e in x.targets[0].elts][:1] == [t1]), None)
+                call2 = next((x for x in b if isinstance(x, ast.Assign) and isinstance(x.targets[0], ast.Name) and x.targets[0].id == t2 and isinstance(x.value, ast.Call)), None)
+                okp = False
+                if unpack is not None and call2 is not None and isinstance(unpack.value, ast.Call) and norm(unpack.value.func) == 'zip' and 'items()' in norm(unpack.value):
+                    dname = unpack.targets[0].elts[1].id if len(unpack.targets[0].elts) == 2 and isinstance(unpack.targets[0].elts[1], ast.Name) else None
+                    a0 = call2.value.args[0] if call2.value.args else None
+                    okp = isinstance(a0, ast.Name) and a0.id == dname
+                if okp:
+                    chk.ok(R4, IMPORT, f'{norm(sa)} / {norm(sb)}', detail='keys and contents come from the same zip(*cache.items()); new keys are returned for exactly those contents, in order')
+                else:
+                    chk.bad(R4, IMPORT, f'{norm(sa)} / {norm(sb)}', 'the bulk extension of the old/new key lists is not derived from one zip(*cache.items()) whose contents are what is added',
+                            where=f'{fn.module.relpath}:{sa.lineno}')
+            else:
+                chk.ok(R4, IMPORT, f'{norm(sa.value)[:50]} / {norm(sb.value)[:50]}', detail='paired append', nontrivial=False)
+    if not [f for f in chk.findings if f.rule == R4]:
+        chk.require(npairs >= 3, f'import_objects: expected 3 growth sites of the old/new key lists, found {npairs}')
+    # cache flushes: every block that adds the cache content must reset the cache when it is inside the loop; a final flush follows the loop
+    cache = None
+    for n in walk_local(fn.node):
+        if isinstance(n, ast.Call) and norm(n.func) == 'zip' and n.args and isinstance(n.args[0], ast.Starred) and 'items()' in norm(n.args[0]):
+            cache = norm(n.args[0].value.func.value) if isinstance(n.args[0].value, ast.Call) else None
+    chk.require(cache, 'import_objects: content cache not found')
+    flush_blocks = [b for b in blocks if any(isinstance(x, ast.Assign) and isinstance(x.value, ast.Call) and norm(x.value.func) == 'zip' and cache in norm(x.value) for x in b)]
+    inloop = [b for b in flush_blocks if _enclosing_loop(b[0]) is not None]
+    def guard_ok(b):
+        # the final flush may only be guarded by the truthiness of the cache itself
+        p = getattr(b[0], '_parent', None)
+        while p is not None and p is not fn.node:
+            if isinstance(p, ast.If):
+                if not (isinstance(p.test, ast.Name) and p.test.id == cache and any(x is b[0] for x in p.body)):
+                    return False
+            p = getattr(p, '_parent', None)
+        return True
+    final = [b for b in flush_blocks if _enclosing_loop(b[0]) is None and guard_ok(b)]
+    okc = True
+    for b in inloop:
+        if not any(isinstance(x, ast.Assign) and isinstance(x.targets[0], ast.Name) and x.targets[0].id == cache and isinstance(x.value, (ast.Dict, ast.Call)) and not getattr(x.value, 'keys', None) for x in b):
+            okc = False
+            chk.bad(R4, IMPORT, f'flush of `{cache}` inside the loop', 'the cache is flushed to the destination but not reset: its objects are added again at the next flush', where=f'{fn.module.relpath}:{b[0].lineno}')
+    if not final:
+        okc = False
+        chk.bad(R4, IMPORT, f'final flush of `{cache}`', 'there is no flush of the remaining cache content after the loop: the last objects are never imported', where=f'{fn.module.relpath}:{fn.lineno}')
+    if okc:
+        chk.ok(R4, IMPORT, f'{len(inloop)} in-loop flush(es) + {len(final)} final flush', detail='cache reset with each in-loop flush; final flush after the loop')
+
+
+
 def run(ctx):
     chk = Check('C14', ctx)
     prog, K, E = ctx.prog, ctx.kinds, ctx.effects
@@ -289,98 +388,7 @@ def run(ctx):
         chk.bad(R5, IMPORT, norm(htest[0].test) if htest else 'hash type test', 'the same-hash fast path is not selected by comparing self.hash_type with the source container\'s hash_type: '
                 'with different algorithms keys would be compared that can never match (or everything is re-hashed needlessly)', where=f'{fn.module.relpath}:{(htest[0].lineno if htest else fn.lineno)}')
 
-    # ---------------------------------------------------------------- R4
-    rets = [n for n in walk_local(fn.node) if isinstance(n, ast.Return) and n.value is not None]
-    chk.require(rets, 'import_objects: return not found')
-    mapping = rets[-1].value
-    zipc = None
-    if isinstance(mapping, ast.Name):
-        mname = mapping.id
-        for n in walk_local(fn.node):
-            if isinstance(n, ast.Assign) and isinstance(n.targets[0], ast.Name) and n.targets[0].id == mname:
-                mapping = n.value
-    for x in ast.walk(mapping):
-        if isinstance(x, ast.Call) and norm(x.func) == 'zip' and len(x.args) == 2 and all(isinstance(a, ast.Name) for a in x.args):
-            zipc = x
-    chk.require(zipc is not None, 'import_objects: the returned mapping is not dict(zip(old, new)) any more')
-    A, B = zipc.args[0].id, zipc.args[1].id
-
-    def growth(block, name):
-        out = []
-        for st in block:
-            if isinstance(st, ast.Expr) and isinstance(st.value, ast.Call) and isinstance(st.value.func, ast.Attribute) and st.value.func.attr == 'append' \
-                    and isinstance(st.value.func.value, ast.Name) and st.value.func.value.id == name:
-                out.append(('append', st))
-            elif isinstance(st, ast.AugAssign) and isinstance(st.target, ast.Name) and st.target.id == name and isinstance(st.op, ast.Add):
-                out.append(('extend', st))
-        return out
-
-    blocks = []
-    for n in [fn.node] + list(walk_local(fn.node)):
-        for attr in ('body', 'orelse', 'finalbody'):
-            b = getattr(n, attr, None)
-            if isinstance(b, list) and b and isinstance(b[0], ast.stmt):
-                blocks.append(b)
-    npairs = 0
-    for b in blocks:
-        ga, gb = growth(b, A), growth(b, B)
-        if not ga and not gb:
-            continue
-        if [k for k, _ in ga] != [k for k, _ in gb]:
-            st = (ga or gb)[0][1]
-            chk.bad(R4, IMPORT, norm(st)[:120], f'`{A}` and `{B}` do not grow in lockstep in this block ({[k for k, _ in ga]} vs {[k for k, _ in gb]}): the returned mapping would pair '
-                    'source keys with the wrong destination keys', where=f'{fn.module.relpath}:{st.lineno}')
-            continue
-        for (ka, sa), (kb, sb) in zip(ga, gb):
-            npairs += 1
-            if ka == 'extend':
-                # A += T1, B += T2 with (T1, D) = zip(*cache.items()) and T2 = self.add_objects_to_pack(D, ...)
-                t1 = sa.value.id if isinstance(sa.value, ast.Name) else None
-                t2 = sb.value.id if isinstance(sb.value, ast.Name) else None
-                unpack = next((x for x in b if isinstance(x, ast.Assign) and isinstance(x.targets[0], ast.Tuple) and [getattr(e, 'id', None) for e in x.targets[0].elts][:1] == [t1]), None)
-                call2 = next((x for x in b if isinstance(x, ast.Assign) and isinstance(x.targets[0], ast.Name) and x.targets[0].id == t2 and isinstance(x.value, ast.Call)), None)
-                okp = False
-                if unpack is not None and call2 is not None and isinstance(unpack.value, ast.Call) and norm(unpack.value.func) == 'zip' and 'items()' in norm(unpack.value):
-                    dname = unpack.targets[0].elts[1].id if len(unpack.targets[0].elts) == 2 and isinstance(unpack.targets[0].elts[1], ast.Name) else None
-                    a0 = call2.value.args[0] if call2.value.args else None
-                    okp = isinstance(a0, ast.Name) and a0.id == dname
-                if okp:
-                    chk.ok(R4, IMPORT, f'{norm(sa)} / {norm(sb)}', detail='keys and contents come from the same zip(*cache.items()); new keys are returned for exactly those contents, in order')
-                else:
-                    chk.bad(R4, IMPORT, f'{norm(sa)} / {norm(sb)}', 'the bulk extension of the old/new key lists is not derived from one zip(*cache.items()) whose contents are what is added',
-                            where=f'{fn.module.relpath}:{sa.lineno}')
-            else:
-                chk.ok(R4, IMPORT, f'{norm(sa.value)[:50]} / {norm(sb.value)[:50]}', detail='paired append', nontrivial=False)
-    if not [f for f in chk.findings if f.rule == R4]:
-        chk.require(npairs >= 3, f'import_objects: expected 3 growth sites of the old/new key lists, found {npairs}')
-    # cache flushes: every block that adds the cache content must reset the cache when it is inside the loop; a final flush follows the loop
-    cache = None
-    for n in walk_local(fn.node):
-        if isinstance(n, ast.Call) and norm(n.func) == 'zip' and n.args and isinstance(n.args[0], ast.Starred) and 'items()' in norm(n.args[0]):
-            cache = norm(n.args[0].value.func.value) if isinstance(n.args[0].value, ast.Call) else None
-    chk.require(cache, 'import_objects: content cache not found')
-    flush_blocks = [b for b in blocks if any(isinstance(x, ast.Assign) and isinstance(x.value, ast.Call) and norm(x.value.func) == 'zip' and cache in norm(x.value) for x in b)]
-    inloop = [b for b in flush_blocks if _enclosing_loop(b[0]) is not None]
-    def guard_ok(b):
-        # the final flush may only be guarded by the truthiness of the cache itself
-        p = getattr(b[0], '_parent', None)
-        while p is not None and p is not fn.node:
-            if isinstance(p, ast.If):
-                if not (isinstance(p.test, ast.Name) and p.test.id == cache and any(x is b[0] for x in p.body)):
-                    return False
-            p = getattr(p, '_parent', None)
-        return True
-    final = [b for b in flush_blocks if _enclosing_loop(b[0]) is None and guard_ok(b)]
-    okc = True
-    for b in inloop:
-        if not any(isinstance(x, ast.Assign) and isinstance(x.targets[0], ast.Name) and x.targets[0].id == cache and isinstance(x.value, (ast.Dict, ast.Call)) and not getattr(x.value, 'keys', None) for x in b):
-            okc = False
-            chk.bad(R4, IMPORT, f'flush of `{cache}` inside the loop', 'the cache is flushed to the destination but not reset: its objects are added again at the next flush', where=f'{fn.module.relpath}:{b[0].lineno}')
-    if not final:
-        okc = False
-        chk.bad(R4, IMPORT, f'final flush of `{cache}`', 'there is no flush of the remaining cache content after the loop: the last objects are never imported', where=f'{fn.module.relpath}:{fn.lineno}')
-    if okc:
-        chk.ok(R4, IMPORT, f'{len(inloop)} in-loop flush(es) + {len(final)} final flush', detail='cache reset with each in-loop flush; final flush after the loop')
+    import_mapping_and_flush(ctx, chk, R4)
 
     return chk.finish(
         explanation=('Static checks of import_objects: a linear typestate for every Iterable-annotated parameter of the package (at most one consumption per path before '
